@@ -69,7 +69,7 @@ func (g *gen) randValueType() Ty { return valueTypes[g.pick(len(valueTypes))] }
 
 // stmt emits one statement (possibly compound). tail: may this statement end the function with returns.
 func (g *gen) stmt(s *scope, fs *fstate, ind int, depth int) {
-	switch g.pick(50) {
+	switch g.pick(52) {
 	case 0, 1: // x := e
 		t := g.randValueType()
 		e := g.expr(s, t, 2)
@@ -727,6 +727,30 @@ func (g *gen) stmt(s *scope, fs *fstate, ind int, depth int) {
 		g.line(ind, "%s := disk.Read(%d)", rb, []int{a, a, (a + 1) % 30}[g.pick(3)])
 		g.line(ind, "%s := machine.UInt64Get(%s) + disk.Size() + uint64(len(%s))", n, rb, rb)
 		g.declare(s, Var{Name: n, T: U64})
+	case 50: // pointer to a pointer to a struct: load and replace the inner pointer through the outer one
+		q, r, x, n := g.fresh("cq"), g.fresh("cr"), g.fresh("v"), g.fresh("v")
+		g.key("ptr.to-ptr-struct")
+		g.line(ind, "var %s *Cell = &Cell{v: %s, w: %s}", q, g.expr(s, U64, 1), g.expr(s, U32, 1))
+		g.line(ind, "%s := &%s", r, q)
+		g.line(ind, "%s := (*%s).v + uint64((*%s).w)", x, r, r)
+		g.line(ind, "*%s = &Cell{v: %s}", r, g.expr(s, U64, 1))
+		g.line(ind, "(*%s).w = %s", r, g.expr(s, U32, 1))
+		g.line(ind, "%s := %s*3 + %s.v + uint64(%s.w) + %s.get(1)", n, x, q, q, q)
+		g.declare(s, Var{Name: n, T: U64})
+	case 51: // a closure that changes the loop variable it captured
+		t, i, f := g.fresh("v"), g.fresh("lv"), g.fresh("cf")
+		g.key("closure.loopvar-modified")
+		g.line(ind, "var %s uint64 = %s", t, g.expr(s, U64, 1))
+		g.line(ind, "for %s := uint64(0); %s < %d; %s++ {", i, i, 4+g.pick(4), i)
+		g.line(ind+1, "%s := func() {", f)
+		g.line(ind+2, "%s = %s + 1", i, i)
+		g.line(ind+1, "}")
+		g.line(ind+1, "if %s == %d {", i, 1+g.pick(2))
+		g.line(ind+2, "%s()", f)
+		g.line(ind+1, "}")
+		g.line(ind+1, "%s = %s*5 + %s", t, t, i)
+		g.line(ind, "}")
+		g.declare(s, Var{Name: t, T: U64, Assignable: true})
 	}
 }
 
